@@ -34,6 +34,8 @@ def owners(inv, lastop):
         out.add("C09")
     if inv.startswith("Concurrent"):
         out.add("C06")
+        if lastop in ("delete", "gc") or inv == "ConcurrentSerializable+gc":
+            out.add("C09")      # a Delete / GC in the tail: "leaving every reachable node, tag ... intact"
     if inv == "OpResult" and lastop in ("delete", "gc"):
         out.discard("C06")
         out.add("C09")
@@ -77,6 +79,13 @@ def judge(ctx, out, summ, confirm=True):
                 break
             if r["e"] in ("op", "pop") and r["op"] in MUT:
                 lastop = r["op"]
+        if v["inv"].startswith("Concurrent"):
+            # the whole tail counts: a Delete or GC among its operations makes it C09's business too
+            tail = [r["op"] for r in tr if r["e"] == "pop" and r["i"] <= v["i"]]
+            k = max([i for i, r in enumerate(tr) if r["e"] == "par" and r["i"] <= v["i"]] or [0])
+            tail = [r["op"] for r in tr[k:] if r["e"] == "pop" and r["i"] <= v["i"]]
+            if any(o in ("delete", "gc") for o in tail):
+                lastop = "gc" if "gc" in tail else "delete"
         own = owners(v["inv"], lastop)
         if not own:
             raise Infra("judgement %s of StoreMon.tla failed and no property owns it" % v["inv"])
